@@ -613,7 +613,7 @@ func c10Child(c *caseCtx) (res caseResult) {
 	}
 	w.mu.Unlock()
 	if inst != nil && !waitFor(wd, func() bool { inst.mu.Lock(); defer inst.mu.Unlock(); return len(inst.got) == 5 }) {
-		res.violate("the existing child did not receive the messages sent after the duplicate spawns")
+		res.neverOrNotYet("the existing child did not receive the messages sent after the duplicate spawns")
 	}
 	// stop the child, then the id can be spawned again (once)
 	select {
